@@ -356,3 +356,54 @@ def k3_field_writers(ctx, rule, adt_pat, allowed, fields=None, floor=1, exclude_
                   loc=site.loc())
     ctx.floor(rule, 'write sites of %s fields' % adt_pat, n, floor)
     return ws
+
+
+# ------------------------------------------------------------------ guard scopes
+
+def guard_locals(body, acquire_site):
+    """Locals that hold the guard returned by acquire_site (following whole-local moves)."""
+    gl = acquire_site.term['dest']
+    if len(gl) != 1:
+        return set()
+    locs = {gl[0]}
+    changed = True
+    while changed:
+        changed = False
+        for site, s in body.stmts():
+            if s['s'] == 'assign' and s['rv']['r'] == 'use' and len(s['lhs']) == 1:
+                p = s['rv']['o'].get('m')
+                if p and len(p) == 1 and p[0] in locs and s['lhs'][0] not in locs:
+                    locs.add(s['lhs'][0])
+                    changed = True
+    return locs
+
+
+def guard_releases(body, acquire_site):
+    """Sites at which the guard acquired at acquire_site is released: Drop
+    terminators of a guard local, and calls that consume (move) it."""
+    locs = guard_locals(body, acquire_site)
+    out = []
+    for i, blk in enumerate(body.blocks):
+        if blk['cleanup']:
+            continue
+        t = blk['term']
+        if t['t'] == 'drop' and len(t['p']) == 1 and t['p'][0] in locs:
+            out.append(Site(body, i))
+        elif t['t'] == 'call':
+            for a in t['args']:
+                p = a.get('m')
+                if p and len(p) == 1 and p[0] in locs:
+                    out.append(Site(body, i))
+    return out
+
+
+def held_at(body, acquire_site, site):
+    """True iff on every path acquire -> site the guard has not been released."""
+    if not body.site_dominates(acquire_site, site):
+        return False, None
+    for r in guard_releases(body, acquire_site):
+        if r.bb == site.bb:
+            continue
+        if body.can_reach(acquire_site.bb, r.bb) and body.can_reach(r.bb, site.bb):
+            return False, r
+    return True, None
